@@ -8,9 +8,10 @@ import vlib
 IMPORTS = "From Aelys Require Import Model.CallCache.\nOpen Scope N_scope."
 
 TRUSTED = [
-    "Coq 8.16.1 kernel + vm_compute (refutation witnesses, Examples, evaluation of the model on the tie's histories)",
-    "tools/extractors/c05.py transcribes opcode numbers 77/78/104, MAX_FRAMES, MAX_CALL_SITE_SLOTS and three source-shape "
-    "flags (set_global* clear call_site_cache; 78 fast path does not re-read the global; REPL compiler starts slot ids at 0) "
+    "Coq 8.16.1 kernel + vm_compute (Examples, evaluation of the model on the tie's histories)",
+    "tools/extractors/c05.py transcribes opcode numbers 77/78/104, MAX_FRAMES, MAX_CALL_SITE_SLOTS and four source-shape "
+    "flags (set_global* clear call_site_cache; the 78 fast path checks the entry's owner and the current global; a 104 site "
+    "de-specialises itself when its global no longer denotes the cached native; REPL compiler starts slot ids at 0) "
     "from opcode.rs, core.rs, access.rs, call_global*.inc, binary.rs, constructors.rs, repl.rs",
     "Model/CallCache.v is a hand model of opcodes 77/78/104, set_global*, write_function's cache stripping and slot "
     "numbering; globals are identified by name (per-layout index vectors and their synchronisation are C14's model), "
@@ -20,47 +21,8 @@ TRUSTED = [
     "Collect events are covered by the theorem under the assumption that a collection frees no object bound to a global (C03)",
 ]
 
-SIG_BY_MODE = {"repl": "c05:repl-slot-collision", "reload": "c05:reload-zeroed-slots", "unit": "c05:unit-slot-collision"}
-
-
 def parse_obs(t):
     return [[int(x) for x in re.findall(r"\d+", part)] for part in re.findall(r"\[([^\[\]]*)\]", t)]
-
-
-def agrees_through_first_divergence(real, spec, model):
-    """real/spec/model: per-input [status, count, tags...].  Inputs before the first diverging one
-    must be predicted exactly; in the diverging input the model must predict the real tags up to
-    and including the first tag that differs from the specification (after a call has entered the
-    wrong body the VM runs that body under a foreign frame identity, which the model does not
-    describe).  Returns None when fine, else a description."""
-    for k, (r, s_) in enumerate(zip(real, spec)):
-        if k >= len(model):
-            return f"model has no prediction for input {k}"
-        m = model[k]
-        if r == s_:
-            if m != r:
-                return f"input {k}: model {m} != observed {r}"
-            continue
-        rt, st_, mt = r[2:], s_[2:], m[2:]
-        j = 0
-        while j < len(rt) and j < len(st_) and rt[j] == st_[j]:
-            j += 1
-        if m[0] == 5:
-            # the model stops at a call whose outcome it does not describe (OConfused: the 78 fast path fell
-            # through to the miss path after switching the index layout): everything printed before that
-            # call must match, and that call must not come after the first visible divergence
-            if len(mt) <= j:
-                if mt == rt[:len(mt)]:
-                    return None
-                return f"input {k}: model stops (layout confusion) after tags {mt}, observed {rt[:j + 1]}"
-            # the confusion comes after the first wrong callee: the ordinary rule applies
-        upto = min(j + 1, len(rt))
-        if mt[:upto] != rt[:upto]:
-            return f"input {k}: model tags {mt[:upto]} != observed tags {rt[:upto]} (through the first wrong callee)"
-        if j >= len(rt) and m[0] != r[0] and len(rt) < 24:
-            return f"input {k}: model status {m[0]} != observed status {r[0]}"
-        return None
-    return None
 
 
 def run(ctx):
@@ -71,8 +33,7 @@ def run(ctx):
         "with the real one on all generated histories (including the ones where the real code violates the property)",
         "a garbage collection frees no object that is bound to a global (C03's property)",
     ]
-    ctx.cov["refuted_lemmas"] = ["call_runs_current (unconditional, every history): refuted by repl_slot_collision_refuted, "
-                                 "reload_zeroed_slots_refuted, native_rebind_stale_refuted"]
+    ctx.cov["refuted_lemmas"] = []
     proved = ctx.prove("C05", extracted=["CallCacheConsts"])
     if ctx.tier == "thorough" and proved:
         ctx.coqchk("C05")
@@ -129,59 +90,29 @@ def run(ctx):
             ctx.broken.append("correspondence C05: model evaluation failed")
             ctx.log(err[-3000:])
         failset = set(fails)
-        # (2) direct oracle: observation == the property's reference interpreter
-        diverging = [i for i, c in enumerate(cases) if c["observed"] != c["spec"]]
-        need_model = sorted(set(diverging) & failset)
-        model_obs = {}
-        if need_model:
-            mo, _e2 = vlib.coq_eval_terms("c05", IMPORTS, [f"session_obs ({cases[i]['query']})" for i in need_model])
-            for i, m in zip(need_model, mo):
-                model_obs[i] = parse_obs(m.split(":")[0]) if m else None
-        causes = {}
-        if diverging:
-            dg, _e3 = vlib.coq_eval_terms("c05", IMPORTS, [f"diagnose ({cases[i]['query']})" for i in diverging])
-            for i, d in zip(diverging, dg):
-                mm = re.search(r"=\s*(\d+)", d or "")
-                causes[i] = int(mm.group(1)) if mm else -1
+        # (2) direct oracle: observation == the property's reference interpreter.  No failure class is excused any
+        # more (KF-C05-1..3 are repaired): every wrong callee is a violation with its session as the failing input
         nrep = 0
         for i, c in enumerate(cases):
+            if c["observed"] == c["spec"] and i not in failset:
+                continue
             rep = {"mode": c["mode"], "case_seed": c["seed"], "profile": prof, "source": c["source"],
                    "observed": c["observed"], "spec": c["spec"], "model_query": c["query"]}
-            if c["observed"] == c["spec"]:
-                if i in failset:
-                    nrep += 1
-                    if nrep <= 3:
-                        mo, _ = vlib.coq_eval_terms("c05", IMPORTS, [f"session_obs ({c['query']})"])
-                        rep["model"] = mo[0]
-                        ctx.violation("c05:model-mismatch:" + c["mode"],
-                                      "the implementation follows the property here but the model predicts something else: "
-                                      "Model/CallCache.v no longer describes the code", rep)
+            nrep += 1
+            if nrep > 6:
                 continue
-            # the property is violated on this history
-            real, spec = parse_obs(c["observed"]), parse_obs(c["spec"])
             if i in failset:
-                m = model_obs.get(i)
-                why = "no model output" if m is None else agrees_through_first_divergence(real, spec, m)
-                if why:
-                    rep["model"] = m
-                    rep["why"] = why
-                    ctx.violation("c05:unexplained-wrong-callee:" + c["mode"],
-                                  "a call ran a callee that is neither what the name denotes nor what the modelled "
-                                  "cache protocol does: " + why, rep)
-                    continue
-            cause = causes.get(i, -1)
-            if cause == 1:
-                sig = SIG_BY_MODE[c["mode"]]          # a 78 site used a cache entry that is not its own
-            elif cause == 2:
-                sig = "c05:native-site-rebound"       # a 104 site did not follow the rebinding
-            elif cause == 4:
-                sig = "c05:stale-entry-after-rebinding:" + c["mode"]   # own slot, own outdated entry: invalidation missing
+                mo, _ = vlib.coq_eval_terms("c05", IMPORTS, [f"session_obs ({c['query']})"])
+                rep["model"] = mo[0]
+            if c["observed"] != c["spec"]:
+                sig = "c05:wrong-callee:" + c["mode"]
+                ctx.violation(sig, "a call ran a function other than the one its callee denotes "
+                              f"(observed {c['observed']}, the property requires {c['spec']})", rep)
+                by_sig[sig] = by_sig.get(sig, 0) + 1
             else:
-                sig = f"c05:wrong-callee-cause-{cause}:" + c["mode"]
-            rep["cause"] = cause
-            ctx.violation(sig, "a call ran a function other than the one its callee denotes "
-                          f"(observed {c['observed']}, the property requires {c['spec']})", rep)
-            by_sig[sig] = by_sig.get(sig, 0) + 1
+                ctx.violation("c05:model-mismatch:" + c["mode"],
+                              "the implementation follows the property here but the model predicts something else: "
+                              "Model/CallCache.v no longer describes the code", rep)
         ctx.add_samples([{"mode": c["mode"], "source": c["source"][:400], "observed": c["observed"], "spec": c["spec"]}
                          for c in cases[:2] + cases[5:6] + cases[8:9]])
     ctx.cov["evaluations"] = total
@@ -194,8 +125,7 @@ def run(ctx):
                        "(bodies with 0-2 call sites), redefinitions across inputs, let mut / assignments binding leaf functions, "
                        "closures, natives (abs, floor, type) and non-callables, rebinding of the builtin name `type`, calls from "
                        "top-level and body sites; opt level 1 (REPL default) and 0 (every 7th case); every history is checked "
-                       "against the reference interpreter of the property (direct oracle) and against the Coq model "
-                       "(exactly when the property holds on it; through the first wrong callee when it does not); "
+                       "against the reference interpreter of the property (direct oracle) and, exactly, against the Coq model; "
                        "distinct = distinct sources with at least one top-level call")
 
 
